@@ -147,8 +147,11 @@ func (m *MoovBox) RemovePsshs() []*PsshBox {
 
 func (m *MoovBox) GetSinf(trackID uint32) *SinfBox {
 	for _, trak := range m.Traks {
-		if trak.Tkhd.TrackID == trackID {
-			stsd := trak.Mdia.Minf.Stbl.Stsd
+		if trak.Tkhd != nil && trak.Tkhd.TrackID == trackID {
+			stsd := trakStsd(trak)
+			if stsd == nil || len(stsd.Children) == 0 {
+				continue
+			}
 			sd := stsd.Children[0] // Get first (and only)
 			switch box := sd.(type) {
 			case *VisualSampleEntryBox:
@@ -161,11 +164,22 @@ func (m *MoovBox) GetSinf(trackID uint32) *SinfBox {
 	return nil
 }
 
+// trakStsd returns the stsd box of trak, or nil if any box on the way to it is missing
+func trakStsd(trak *TrakBox) *StsdBox {
+	if trak.Mdia == nil || trak.Mdia.Minf == nil || trak.Mdia.Minf.Stbl == nil {
+		return nil
+	}
+	return trak.Mdia.Minf.Stbl.Stsd
+}
+
 // IsEncrypted returns true if SampleEntryBox is "encv" or "enca"
 func (m *MoovBox) IsEncrypted(trackID uint32) bool {
 	for _, trak := range m.Traks {
-		if trak.Tkhd.TrackID == trackID {
-			stsd := trak.Mdia.Minf.Stbl.Stsd
+		if trak.Tkhd != nil && trak.Tkhd.TrackID == trackID {
+			stsd := trakStsd(trak)
+			if stsd == nil || len(stsd.Children) == 0 {
+				continue
+			}
 			sd := stsd.Children[0] // Get first (and only)
 			switch box := sd.(type) {
 			case *VisualSampleEntryBox:
